@@ -477,6 +477,9 @@ def jobs(tier):
   add('h_paint', N=2, fps='16', frames=3, mode='window', budget=600)
   add('h_paint', N=1, fps='50', frames=5, mode='length_ms', onset_len_ms=30)
   add('h_paint', N=1, fps='31.25', frames=4, mode='window', delay_ms=20.0)
+  # onset length longer than the note, with a delay
+  add('h_paint', N=1, fps='32', frames=5, mode='length_ms', onset_len_ms=62.5,
+      delay_ms=31.25, budget=600)
   add('h_paint', N=1, fps='100', frames=4, mode='window', occupancy=0.5)
   add('h_decode', T=3, K=1, fps='50')
   add('h_decode', T=3, K=2, fps='31.25', budget=600)
